@@ -329,6 +329,19 @@ class Loader:
         self.modules[name] = None
         return None
 
+    def add_module(self, name, source):
+        """Register a synthetic module (harness-side classes that subclass repository classes)."""
+        import tempfile
+        path = os.path.join(tempfile.gettempdir(), f"pyvc_synth_{name.replace('.', '_')}_{os.getpid()}.py")
+        with open(path, "w") as f:
+            f.write(source)
+        try:
+            m = Module(name, path)
+        finally:
+            os.unlink(path)
+        self.modules[name] = m
+        return m
+
     def ext_class(self, name, py=None):
         if name not in self.ext_classes:
             if py is None:
